@@ -262,6 +262,30 @@ func (s *server) ModifyColumnFamilies(ctx context.Context, req *btapb.ModifyColu
 	defer tbl.mu.Unlock()
 	cfs := tbl.def.ColumnFamilies
 
+	// Check every modification first, against the family set it will see, so that a request
+	// that fails part-way is not left half applied.
+	exists := make(map[string]bool, len(cfs))
+	for id := range cfs {
+		exists[id] = true
+	}
+	for _, mod := range req.Modifications {
+		if mod.GetCreate() != nil {
+			if exists[mod.Id] {
+				return nil, status.Errorf(codes.AlreadyExists, "family %q already exists", mod.Id)
+			}
+			exists[mod.Id] = true
+		} else if mod.GetDrop() {
+			if !exists[mod.Id] {
+				return nil, fmt.Errorf("can't delete unknown family %q", mod.Id)
+			}
+			delete(exists, mod.Id)
+		} else if mod.GetUpdate() != nil {
+			if !exists[mod.Id] {
+				return nil, fmt.Errorf("no such family %q", mod.Id)
+			}
+		}
+	}
+
 	for _, mod := range req.Modifications {
 		if create := mod.GetCreate(); create != nil {
 			if _, ok := cfs[mod.Id]; ok {
